@@ -48,6 +48,16 @@ var literalCases = map[string]struct {
 		c: Case{Program: "count() by k, c", Meta: prog.Meta{Ordered: false, Deterministic: true}, Source: "grammar",
 			Input: gen.SeqFromZSON(`{k:1,c:1} {k:2,c:1} {k:1,c:1}`), SortKey: "c", Reader: "plain", Frame: 1, Threads: 1, Batch: 1},
 	},
+	"known-C07-sortkey-summarize-round-null": {
+		sig: "C07/sortkey-summarize/rounding-function-of-null-float-key", expect: "known",
+		c: Case{Program: "count() by bar:=floor(bar)", Meta: prog.Meta{Ordered: false, Deterministic: true}, Source: "grammar",
+			Input: gen.SeqFromZSON(`{bar:0.} {bar:1.} {bar:null(float64)}`), SortKey: "bar", Reader: "plain", Frame: 1, Threads: 1, Batch: 1},
+	},
+	"known-C07-sortkey-join-nulls-first": {
+		sig: "C07/sortkey-join/sort-nulls-first-taken-for-sorted", expect: "known",
+		c: Case{Program: "fork (=> sort -nulls first n => pass) | join on n=n", Meta: prog.Meta{Ordered: false, Deterministic: true}, Source: "grammar",
+			Input: gen.SeqFromZSON(`{n:2,b:2} {n:null(int64),b:0} {n:1,b:1}`), Reader: "plain", Frame: 100000, Threads: 1, Batch: 100},
+	},
 	"known-C07-sortkey-join-desc-nulls": {
 		sig: "C07/sortkey-join/desc-null-keys", expect: "known",
 		c: Case{Program: "fork (=> pass => put a:=a) | join on a=a b2:=b", Meta: prog.Meta{Ordered: false, Deterministic: true}, Source: "grammar",
